@@ -38,6 +38,7 @@ EMITTERS = {
 }
 SRC = {"function_return": "e_dispatch.c", "dead": "e_dead.c", "dispatch": "e_dispatch.c", "global_get": "e_more.c", "global_set": "e_more.c", "memory_size": "e_more.c", "memory_grow": "e_more.c"}
 BOUNDED = {"function_return": "operand-stack heights and capacities <= 10 (wasmTypeStackClear loops over the capacity); types symbolic"}
+PRETTY_IN_QUICK = {"shr_s", "shr_u", "shl", "signed_infix", "select", "br_if", "infix_assign"}     # emitters with text that exists only in the -p path
 ALL_VARIANTS_IN_QUICK = {"ignored", "br", "br_if", "dispatch", "dead"}
 EXTRA_FUNCS = {
     "load": ["c.c:wasmCWriteStringMemoryUse"], "store": ["c.c:wasmCWriteStringMemoryUse"],
@@ -68,7 +69,7 @@ def expr_jobs(ctx, which, solver="sat"):
         fn, variants = EMITTERS[nm]
         for vi, (suf, vdefs) in enumerate(variants):
             for pr in (0, 1):
-                if ctx.tier == "quick" and (pr or (vi > 1 and nm not in ALL_VARIANTS_IN_QUICK)):
+                if ctx.tier == "quick" and ((pr and not (nm in PRETTY_IN_QUICK and vi == 0)) or (vi > 1 and nm not in ALL_VARIANTS_IN_QUICK)):
                     continue
                 jobs.append(ejob(ctx, "E.h.%s%s%s" % (nm, suf, ".pretty" if pr else ""), SRC.get(nm, "e_expr.c"), "h_" + nm,
                                  ["c.c:" + fn] + COMMON + EXTRA_FUNCS.get(nm, []), defines=["PRETTY=%d" % pr, "INDENT=%d" % (2 if pr else 0)] + vdefs,
